@@ -243,7 +243,8 @@ def run_pytest(d: Path, args=(), env=None, stdin=b"", timeout=180, keep_ci=False
         junit.unlink()
     e = clean_env(env, keep_ci=keep_ci)
     if plugins:
-        e["PYTHONPATH"] = f"/verif/harness/plugins:{e['PYTHONPATH']}"
+        from .core import VERIF
+        e["PYTHONPATH"] = f"{VERIF}/harness/plugins:{e['PYTHONPATH']}"
     if tty:
         e["FORCE_COLOR"] = "true"
     else:
